@@ -37,6 +37,8 @@ import (
 
 type c14Params struct {
 	N int `json:"n"`
+	// Fixed: the cli kind runs its fixed list of command lines instead of generated ones
+	Fixed bool `json:"fixed,omitempty"`
 }
 
 func init() {
@@ -76,6 +78,12 @@ func init() {
 				cs = append(cs, c)
 			}
 			for i := 0; i < 3*mult; i++ {
+				if i == 0 {
+					fc := core.MkCase("C14", "cli", 900, seed, c14Params{Fixed: true})
+					fc.Solo = true
+					fc.TimeoutMS = 120000
+					cs = append(cs, fc)
+				}
 				c := core.MkCase("C14", "cli", i, seed, c14Params{N: 12})
 				c.Solo = true
 				c.TimeoutMS = 120000
@@ -1048,6 +1056,23 @@ func c14CLI(c *core.Case, o *core.Outcome) {
 	var p c14Params
 	c.Params(&p)
 	r := c.Rng("cli")
+	unknownDoc := strings.Replace(strings.Replace(c14ValidYAML, "max-duration: 1s", "max-duration: 80ms", 1), "scenario: verifScenario", "scenario: notRegistered", 1)
+	unknownPath, _ := engine.TempYAML(unknownDoc)
+	validPath, _ := engine.TempYAML(strings.Replace(c14ValidYAML, "max-duration: 1s", "max-duration: 80ms", 1))
+	defer os.Remove(unknownPath)
+	defer os.Remove(validPath)
+	// command lines that every run of the check tries: each trigger's chart with nothing else given, the file trigger
+	// without a file / with a plan for an unregistered scenario, commands without a trigger
+	fixed := [][]string{
+		{"chart", "file"}, {"chart", "file", "--chart-duration", "5s"}, {"chart", "file", validPath}, {"chart", "file", unknownPath},
+		{"run", "file"}, {"run", "file", unknownPath}, {"run", "file", validPath, "extra"},
+		{"chart", "constant"}, {"chart", "staged"}, {"chart", "ramp"}, {"chart", "gaussian"}, {"chart", "users"},
+		{"chart", "ramp", "--start-rate", "1/s", "--end-rate", "10/s", "--ramp-duration", "0s"},
+		{"chart"}, {"run"}, {"run", "users"}, {"chart", "nothing"}, {},
+	}
+	if p.Fixed {
+		p.N = len(fixed)
+	}
 	for i := 0; i < p.N && o.Verdict != core.Violated; i++ {
 		var setups, iters atomic.Int64
 		scenario := func(t *f1testing.T) f1testing.RunFn {
@@ -1055,8 +1080,16 @@ func c14CLI(c *core.Case, o *core.Outcome) {
 			return func(t *f1testing.T) { iters.Add(1) }
 		}
 		mode := pick(r, "constant", "staged", "ramp", "gaussian", "users", "file")
+		// one command line in five asks for the chart of the same trigger instead of a run (no scenario, no common flags)
+		chart := r.IntN(5) == 0
 		args := []string{"run", mode}
+		if chart {
+			args = []string{"chart", mode, "--chart-duration", pick(r, "5s", "10m", "0s", "1h")}
+		}
 		common := func() {
+			if chart {
+				return
+			}
 			args = append(args, "-d", pick(r, "60ms", "100ms", "0s", "-1s", "30ms"), "-c", pick(r, "1", "4", "0", "-2", "64"))
 			if r.IntN(3) == 0 {
 				args = append(args, "-i", pick(r, "0", "5", "100"))
@@ -1087,6 +1120,10 @@ func c14CLI(c *core.Case, o *core.Outcome) {
 			if r.IntN(3) == 0 {
 				doc = strings.Replace(c14ValidYAML, "max-duration: 1s", "max-duration: 80ms", 1)
 			}
+			if r.IntN(6) == 0 {
+				// a well-formed plan for a scenario the program has not registered
+				doc = strings.Replace(strings.Replace(c14ValidYAML, "max-duration: 1s", "max-duration: 80ms", 1), "scenario: verifScenario", "scenario: notRegistered", 1)
+			}
 			path, err := engine.TempYAML(doc)
 			if err != nil {
 				o.Inconc("cannot write yaml: %v", err)
@@ -1103,9 +1140,12 @@ func c14CLI(c *core.Case, o *core.Outcome) {
 			case 3:
 				path = ""
 			}
-			args = append(args, path)
+			if !(chart && r.IntN(3) == 0) {
+				// (a chart of the file trigger asked for without naming a file, one time in three)
+				args = append(args, path)
+			}
 		}
-		if mode != "file" {
+		if mode != "file" && !chart {
 			// the scenario argument: right, unknown, missing altogether, or one too many
 			switch sc := pick(r, "verifScenario", "verifScenario", "verifScenario", "missingScenario", "", "verifScenario extra"); sc {
 			case "":
@@ -1114,6 +1154,11 @@ func c14CLI(c *core.Case, o *core.Outcome) {
 			default:
 				args = append(args, sc)
 			}
+		}
+		if p.Fixed {
+			args = fixed[i]
+			chart = len(args) > 0 && args[0] == "chart"
+			mode = "fixed"
 		}
 		desc := fmt.Sprintf("%v", args)
 		c14Log("cli", desc)
@@ -1152,11 +1197,17 @@ func c14CLI(c *core.Case, o *core.Outcome) {
 		} else {
 			o.AddObs("accepted", 1)
 			o.AddObs("accepted_and_run", 1)
-			if setups.Load() != 1 {
+			if p.Fixed && (len(args) < 3 || args[0] != "run") {
+				// help texts and charts: nothing is run
+				if setups.Load() != 0 {
+					o.Violate("cli-setup:"+desc, "a command line that names no run executed setup %d times (%s)", setups.Load(), desc)
+					return
+				}
+			} else if want := map[bool]int64{false: 1, true: 0}[chart]; setups.Load() != want {
 				o.Violate("cli-setup:"+desc, "the CLI returned success but setup ran %d times (%s)", setups.Load(), desc)
 				return
 			}
-			o.Sig("cli:%s:ok", mode)
+			o.Sig("cli:%s:ok:chart=%v", mode, chart)
 		}
 		if o.Sample == nil {
 			o.Sample = map[string]any{"args": args, "error": fmt.Sprint(err), "setups": setups.Load(), "iterations": iters.Load()}
